@@ -53,6 +53,7 @@ struct Ctx {
     cur_file: String,
     cur_src: String,
     unsafe_seen: usize,
+    ke_methods: Vec<String>,
 }
 impl Ctx {
     fn rule(&mut self, r: &'static str) {
@@ -426,6 +427,21 @@ impl<'c> VisitMut for Rw<'c> {
         visit_mut::visit_type_path_mut(self, tp);
     }
     fn visit_expr_path_mut(&mut self, ep: &mut ExprPath) {
+        if let Some(q) = &ep.qself {
+            let s = ts(&*q.ty);
+            if (s == "CS :: KeyExchange" || s == "< CS as CipherSuite > :: KeyExchange") && ep.path.segments.len() == 2
+                && self.cx.ke_methods.contains(&ep.path.segments[1].ident.to_string()) {
+                // <CS::KeyExchange as KeyExchange<A, B>>::f::<X..>  ->  f::<A, B, X..>
+                let mut args: Vec<GenericArgument> = Vec::new();
+                if let PathArguments::AngleBracketed(ab) = &ep.path.segments[0].arguments { args.extend(ab.args.iter().cloned()); }
+                if let PathArguments::AngleBracketed(ab) = &ep.path.segments[1].arguments { args.extend(ab.args.iter().cloned()); }
+                let f = ep.path.segments[1].ident.clone();
+                self.cx.rule("R9");
+                *ep = parse_quote!( #f::<#(#args),*> );
+                visit_mut::visit_expr_path_mut(self, ep);
+                return;
+            }
+        }
         if let Some(q) = &mut ep.qself {
             let s = ts(&*q.ty);
             if s == "CS :: KeyExchange" || s == "< CS as CipherSuite > :: KeyExchange" {
@@ -483,7 +499,14 @@ impl<'c> VisitMut for Rw<'c> {
                 && p.path.segments[0].ident == "CS" && p.path.segments[1].ident == "KeyExchange" => {
                 let rest: Vec<PathSegment> = p.path.segments.iter().skip(2).cloned().collect();
                 self.cx.rule("R9");
-                *e = parse_quote!( <TripleDh as KeyExchange<OprfHash<CS>, CS::KeGroup>>::#(#rest)::* );
+                if rest.len() == 1 && self.cx.ke_methods.contains(&rest[0].ident.to_string()) {
+                    let mut args: Vec<GenericArgument> = vec![parse_quote!(OprfHash<CS>), parse_quote!(CS::KeGroup)];
+                    if let PathArguments::AngleBracketed(ab) = &rest[0].arguments { args.extend(ab.args.iter().cloned()); }
+                    let f = rest[0].ident.clone();
+                    *e = parse_quote!( #f::<#(#args),*> );
+                } else {
+                    *e = parse_quote!( <TripleDh as KeyExchange<OprfHash<CS>, CS::KeGroup>>::#(#rest)::* );
+                }
             }
             // [a, b].into_iter()  ->  Chunks::ofN(a, b)
             Expr::MethodCall(mc) if mc.method == "into_iter" && mc.args.is_empty() => {
@@ -756,6 +779,14 @@ fn process_items(cx: &mut Ctx, items: Vec<Item>, impl_counter: &mut usize) {
                     // plain trait declarations (KeyExchange, Serialize, Deserialize): extracted verbatim
                     strip_where(cx, &mut t.generics);
                     t.vis = parse_quote!(pub);
+                    if name == "KeyExchange" {
+                        // R9: the sealed trait keeps its associated types; its methods become free functions
+                        let mut kept = Vec::new();
+                        for ti in std::mem::take(&mut t.items) {
+                            if let TraitItem::Fn(f) = &ti { cx.ke_methods.push(f.sig.ident.to_string()); cx.rule("R9"); } else { kept.push(ti); }
+                        }
+                        t.items = kept;
+                    }
                     for ti in t.items.iter_mut() {
                         match ti {
                             TraitItem::Fn(f) => {
@@ -802,10 +833,49 @@ fn process_items(cx: &mut Ctx, items: Vec<Item>, impl_counter: &mut usize) {
                 let hdr_trait = im.trait_.as_ref().map(|(_, p, _)| { let mut p = p.clone(); let mut rw = Rw { cx, in_closure: 0, loop_ord: 0, fn_key: String::new(), self_subst: None }; rw.visit_path_mut(&mut p); format!("{} for ", ts(&p)) }).unwrap_or_default();
                 let mut self_ty = (*im.self_ty).clone();
                 { let mut rw = Rw { cx, in_closure: 0, loop_ord: 0, fn_key: String::new(), self_subst: None }; rw.visit_type_mut(&mut self_ty); }
-                let (ig, _, wc) = im.generics.split_for_impl();
+                let is_ke = trait_name.as_ref().map(|t| t.starts_with("KeyExchange")).unwrap_or(false);
+                let impl_generics = im.generics.clone();
+                let (ig, _, wc) = impl_generics.split_for_impl();
                 emit_marker(cx, "impl", &format!("{}::impl#{}", cx.cur_file, impl_counter), line, &format!(" trait={} from={}", trait_name.clone().unwrap_or_default().replace(' ', ""), is_from));
                 let _ = writeln!(cx.out, "impl {} {}{} {} {{", ts(&ig), hdr_trait, ts(&self_ty), ts(&wc));
+                let mut assoc: BTreeMap<String, Type> = BTreeMap::new();
+                let mut free_fns: Vec<String> = Vec::new();
+                if is_ke { for ii in im.items.iter() { if let ImplItem::Type(t) = ii { assoc.insert(t.ident.to_string(), t.ty.clone()); } } }
                 for ii in im.items.iter_mut() {
+                    if is_ke {
+                        if let ImplItem::Fn(f) = ii {
+                            if !process_attrs(cx, &mut f.attrs) { continue; }
+                            let key = format!("{}::{}::{}", cx.cur_file, self_name, f.sig.ident);
+                            let l = f.sig.ident.span().start().line;
+                            // prepend the impl's generic parameters, after the fn's own lifetimes
+                            let mut params: Punctuated<GenericParam, Token![,]> = Punctuated::new();
+                            for p in f.sig.generics.params.iter() { if matches!(p, GenericParam::Lifetime(_)) { params.push(p.clone()); } }
+                            for p in impl_generics.params.iter() { params.push(p.clone()); }
+                            for p in f.sig.generics.params.iter() { if !matches!(p, GenericParam::Lifetime(_)) { params.push(p.clone()); } }
+                            f.sig.generics.params = params;
+                            if f.sig.generics.lt_token.is_none() { f.sig.generics.lt_token = Some(Default::default()); f.sig.generics.gt_token = Some(Default::default()); }
+                            struct SelfSubst<'m> { assoc: &'m BTreeMap<String, Type> }
+                            impl<'m> VisitMut for SelfSubst<'m> {
+                                fn visit_type_mut(&mut self, t: &mut Type) {
+                                    if let Type::Path(tp) = t {
+                                        if tp.qself.is_none() && tp.path.segments.len() == 2 && tp.path.segments[0].ident == "Self" {
+                                            if let Some(r) = self.assoc.get(&tp.path.segments[1].ident.to_string()) { *t = r.clone(); return; }
+                                        }
+                                        if tp.qself.is_none() && tp.path.is_ident("Self") { *t = parse_quote!(TripleDh); return; }
+                                    }
+                                    visit_mut::visit_type_mut(self, t);
+                                }
+                            }
+                            let mut ss = SelfSubst { assoc: &assoc };
+                            ss.visit_signature_mut(&mut f.sig);
+                            ss.visit_block_mut(&mut f.block);
+                            process_sig_and_body(cx, &key, &mut f.sig, &mut f.block, None);
+                            cx.rule("R9");
+                            free_fns.push(format!("//@item kind=fn key={} src={}:{} free=1\npub {} {}", key, cx.cur_src, l, ts(&f.sig), ts(&f.block)));
+                            cx.fns.push(serde_json::json!({"key": key, "file": cx.cur_src, "line": l}));
+                            continue;
+                        }
+                    }
                     match ii {
                         ImplItem::Fn(f) => {
                             if !process_attrs(cx, &mut f.attrs) { continue; }
@@ -829,6 +899,7 @@ fn process_items(cx: &mut Ctx, items: Vec<Item>, impl_counter: &mut usize) {
                     }
                 }
                 let _ = writeln!(cx.out, "}}");
+                for ff in free_fns { let _ = writeln!(cx.out, "{}", ff); }
             }
             Item::Fn(f) => {
                 if !process_attrs(cx, &mut f.attrs) { continue; }
@@ -885,7 +956,7 @@ fn main() {
     let src = &args[1];
     let mut cx = Ctx {
         out: String::new(), refusals: vec![], rules: BTreeMap::new(), anchors: BTreeMap::new(), dropped: vec![],
-        fns: vec![], cur_file: String::new(), cur_src: String::new(), unsafe_seen: 0,
+        fns: vec![], cur_file: String::new(), cur_src: String::new(), unsafe_seen: 0, ke_methods: vec![],
     };
     for (m, rel) in FILES {
         let path = format!("{}/{}", src, rel);
